@@ -24,9 +24,12 @@ package main
 //   S1  "dead-pod-chain-kept": chains (and their dispatch rules) of pods that are not pods of this node any more
 //       are nobody's to clean: a full synchronisation visits living pods only. With the switch on, such chains
 //       and the dispatch rules jumping to them are exempt from the comparison.
-//   S3  "old-address-dispatch-kept": a dispatch rule for a living, still selected pod that carries an address
-//       the pod no longer has is never removed (SyncPodChains only adds the rule for the current address). With
-//       the switch on, such rules are exempt.
+//   S3  "old-address-dispatch-kept": a dispatch rule for a living pod that carries an address the pod no longer
+//       has is never removed while the pod stays selected (SyncPodChains only ensures the rule for the current
+//       address), and when the pod stops being selected deletePodChains removes ONE dispatch rule per pass and
+//       cannot delete the still referenced chain. With the switch on, the chain of a living pod for which a
+//       dispatch chain held an old-address rule or more than one rule when the synchronisation started, and
+//       the dispatch rules jumping to it, are exempt.
 
 import (
 	"fmt"
@@ -169,9 +172,36 @@ func (w *World) localPodChains() map[string]*Pod {
 	return out
 }
 
+// oldAddressChains returns the pod chains of living pods of this node for which, when the synchronisation
+// started, a dispatch chain held a rule with an address the pod does not have (any more), or more than one
+// rule: the precondition of switch S3.
+func (w *World) oldAddressChains() map[string]bool {
+	out := map[string]bool{}
+	local := w.localPodChains()
+	for _, dc := range []string{ingressDispatch, egressDispatch} {
+		n := map[string]int{}
+		for _, r := range w.k0.Chains[dc] {
+			pod := local[r.Target]
+			if pod == nil {
+				continue
+			}
+			n[r.Target]++
+			a := r.Dst
+			if dc == egressDispatch {
+				a = r.Src
+			}
+			if n[r.Target] > 1 || a == nil || a.Bits != 32 || simkernel.U32ToIP(a.IP) != pod.IP {
+				out[r.Target] = true
+			}
+		}
+	}
+	return out
+}
+
 // explainConvergence removes the differences that the listed C15 switches predict and names the switches used.
 func (w *World) explainConvergence(d []DiffItem, e *Expected, o *Observed) (rest []DiffItem, used []string) {
 	local := w.localPodChains()
+	oldAddr := w.oldAddressChains()
 	s1, s3 := false, false
 	for _, x := range d {
 		switch {
@@ -179,7 +209,12 @@ func (w *World) explainConvergence(d []DiffItem, e *Expected, o *Observed) (rest
 			s1 = true
 		case x.Kind == "extra-dispatch" && strings.HasPrefix(x.Target, "GLX-POD-") && local[x.Target] == nil:
 			s1 = true
-		case x.Kind == "extra-dispatch" && e.Pods[x.Target] != nil && !strings.Contains(x.Detail, e.Pods[x.Target].IP+"/32"):
+		case x.Kind == "extra-dispatch" && oldAddr[x.Target]:
+			// a rule for an address the pod no longer has is never removed while the pod is selected, and when
+			// the pod stops being selected deletePodChains removes one dispatch rule per pass, so the chain
+			// (which cannot be deleted while referenced) and the remaining rules outlive the pass
+			s3 = true
+		case x.Kind == "extra-pod-chain" && oldAddr[x.Object]:
 			s3 = true
 		default:
 			rest = append(rest, x)
@@ -248,11 +283,9 @@ func (w *World) afterSecondSync() {
 	}
 	k2 := w.Kern.SaveAll()
 	if k2 != w.k1text {
-		key := "unexplained"
-		if w.d8Seen {
-			key = "D8"
-		}
-		w.fail("C15.not-idempotent", key, "a second full synchronisation changed the kernel state: %s", firstDiffLine(w.k1text, k2))
+		// reached only when the first synchronisation converged, i.e. from a state without the precondition of
+		// any listed switch: nothing explains a change here
+		w.fail("C15.not-idempotent", "unexplained", "a second full synchronisation changed the kernel state: %s", firstDiffLine(w.k1text, k2))
 	}
 }
 
